@@ -806,7 +806,7 @@ def a_next_if(ev, st, info, args):
     return outs
 
 
-@ax('std::iter::Iterator::find', note='find(p) consumes items up to and including the first one satisfying p (Some(item)), or all of them (None)')
+@ax('std::iter::Iterator::find', "<std::slice::Iter<'a, T> as std::iter::Iterator>::find", '<std::slice::Iter<T> as std::iter::Iterator>::find', note='find(p) consumes items up to and including the first one satisfying p (Some(item)), or all of them (None)')
 def a_find_item(ev, st, info, args):
     it = ev.deref(args[0], st)
     if not is_iter(it):
@@ -835,7 +835,7 @@ def a_find_item(ev, st, info, args):
     return outs
 
 
-@ax('std::iter::Iterator::all', note='all(p) consumes items up to and including the first one failing p (false), or all of them (true)')
+@ax('std::iter::Iterator::all', "<std::slice::Iter<'a, T> as std::iter::Iterator>::all", '<std::slice::Iter<T> as std::iter::Iterator>::all', note='all(p) consumes items up to and including the first one failing p (false), or all of them (true)')
 def a_all(ev, st, info, args):
     it = ev.deref(args[0], st)
     if not is_iter(it) or iter_bound(it) is None:
@@ -861,10 +861,33 @@ def a_all(ev, st, info, args):
     return outs
 
 
-@ax('std::iter::Iterator::any', '<std::iter::Peekable<I> as std::iter::Iterator>::any',
+@ax('std::iter::Iterator::any', '<std::iter::Peekable<I> as std::iter::Iterator>::any', "<std::slice::Iter<'a, T> as std::iter::Iterator>::any", '<std::slice::Iter<T> as std::iter::Iterator>::any',
     note='any(p) consumes items up to and including the first one satisfying p (true), or all of them (false); over a splitn(n) tokeniser at most n items')
 def a_any(ev, st, info, args):
     src, pos = split_state(ev, st, args[0])
+    if src is None:
+        it = ev.deref(args[0], st)
+        if is_iter(it) and iter_bound(it) is not None:
+            # any(p) over an array / slice iterator of known length: item by item
+            outs = []
+            work = [(st, it)]
+            while work:
+                s1, cur = work.pop()
+                for s2, nxt, item in iter_step(ev, s1, cur):
+                    if item is None:
+                        s2 = s2.copy() if s2 is s1 else s2
+                        write_ref(ev, s2, info, args[0], nxt)
+                        outs.append((s2, T.FALSE))
+                        continue
+                    for s3, cond in ev.apply_closure(args[1], [item], s2, info['fr'], info['site']):
+                        for s4, v in fork_bool(s3, cond):
+                            if v:
+                                s4 = s4.copy() if s4 is s1 else s4
+                                write_ref(ev, s4, info, args[0], nxt)
+                                outs.append((s4, T.TRUE))
+                            else:
+                                work.append((s4, nxt))
+            return outs
     if src is None or pos[0] != 'int' or src[2][1][0] != 'int':
         return [(st, ('opaque', 'any on an unknown iterator'))]
     limit = src[2][1][1]
